@@ -215,7 +215,7 @@ const reqFmt = "GET http://origin.test%s HTTP/1.1\r\nHost: origin.test\r\nX-Vid:
 var phases = []string{"silent", "partial-head", "origin-holding", "origin-holding", "streaming", "idle-keepalive", "idle-keepalive", "tunnel", "vanished", "racing"}
 
 func main() {
-	run := lib.Start("C11", "scenarios of 1-40 connections parked by gates in phases {accepted but silent, partial request head, request at the origin which holds the reply, reply streaming to a slow reader (1 MiB), idle keep-alive after k exchanges, inside a CONNECT tunnel, client vanished with RST while the origin holds, request written concurrently with the shutdown call}; shutdown is begun by Shutdown(cancelled ctx) (closing state set when it returns), then late requests (GET / POST / CONNECT) are written on idle and silent connections and on new connections, Shutdown(ctx) runs concurrently with gate releases, optionally the drain context expires and Close() follows; PRNG delays in RemoteAddr / SetReadDeadline / Close of accepted connections widen the read-request / closing-check / round-trip windows; oracles over recorded events; a second variant drives forwarder.HTTPProxy.Run + cancel and reads the connection gauge; distinct = (phase multiset, late-request kinds, drain outcome) signatures; interleavings = distinct orders of logged synchronisation events")
+	run := lib.Start("C11", "scenarios of 1-40 connections parked by gates in phases {accepted but silent, partial request head, request at the origin which holds the reply, reply streaming to a slow reader (1 MiB), idle keep-alive after k exchanges, inside a CONNECT tunnel, client vanished with RST while the origin holds, request written concurrently with the shutdown call}; shutdown is begun by Shutdown(cancelled ctx) (closing state set when it returns), then late requests (GET / POST / CONNECT) are written on idle and silent connections and on new connections, Shutdown(ctx) runs concurrently with gate releases, optionally the drain context expires and Close() follows; PRNG delays in RemoteAddr / SetReadDeadline / Close of accepted connections widen the read-request / closing-check / round-trip windows; oracles over recorded events; a second variant drives forwarder.HTTPProxy.Run + cancel and reads the connection gauge, every other run on a PROXY-protocol listener with 1-3 clients that never complete their header; distinct = (phase multiset, late-request kinds, drain outcome) signatures; interleavings = distinct orders of logged synchronisation events")
 	hb := lib.StartHeartbeat()
 	root := run.RNG()
 	n := run.N(150, 5000)
